@@ -127,3 +127,36 @@ claim('C09', 'other',
       'bounded driver (instrumented trees, comparison with a deserialized copy after every step).',
       'Trusted: engine; A-PATHORDER (KeyPath order on prefix-related paths is by depth). No unbounded obligation is discharged for C09 in this revision.',
       'contract-based symbolic execution with a stated shape bound + bounded run-time oracle (labelled bounded, not proof)', 'DESIGN.md 5/C09')
+claim('C03', 'proof',
+      'Formalize-then-store kernel on the real code: `List._formalized_value` returns relocate(apply(from_json(v))) exactly when a value spec is bound and type '
+      'checking is on (with the effective allow_partial), and relocate(from_json(v)) otherwise; the list and dict write primitives hand exactly the formalized '
+      'value to the C-level store, and when formalization raises (the schema rejected the value) nothing at all was written or detached before -- the targeted '
+      'location keeps its previous content; `append`/`insert`/`del` keep the length within [min_size, max_size] and leave the list unchanged when they refuse. '
+      'The full schema vocabulary x every write path x valid/invalid values is exercised by the bounded tier (re-apply of every stored member after every step).',
+      'Trusted: engine; `Field.apply`/`ValueSpec.apply` are abstracted (C04 proves their algebra); `_relocate_if_symbolic` by its C01 contract. Object construction, '
+      'Schema.apply key resolution and frozen/required-field rules are bounded-tier only.',
+      'contract-based deductive verification (pyvc trace/dominance obligations) + bounded stand-in', 'DESIGN.md 5/C03')
+claim('C12', 'proof',
+      'Alignment kernel: `DNA._sym_clone` hands the copy the very spec object of the original, carries over exactly the clone-able user data and metadata keys, '
+      'and does not write the original (4 obligations). The exported views themselves (to_numbers/from_numbers, to_dict/from_dict under all option combinations, '
+      'compact/verbose JSON, lookups by id/name/decision point) and alignment after every library operation that produces DNAs are covered by the bounded tier only.',
+      'NARROW proof: the view functions thread mutable closures and whole-tree recursion and are outside the engine\'s reach; for them the check is a bounded '
+      'stand-in (all valid DNAs of generated specs up to a size bound x all option combinations). Trusted: engine; `Object._sym_clone` returns a fresh copy (C07).',
+      'contract-based deductive verification of a small kernel (pyvc) + bounded stand-in for the views', 'DESIGN.md 5/C12')
+claim('C13', 'proof',
+      'Frame kernel of `ObjectTemplate._decode` for templates with any number of hyper primitives: every rebind that materialises decoded values is applied to '
+      '`symbolic.clone(template_value, deep=True)`, never to the template value; primitive i decodes exactly child DNA i (LOOP-BODY obligation); an arity '
+      'mismatch is refused before anything is decoded; the template\'s own fields are not written. Decode/encode inversion, shapes, value-spec acceptance, '
+      'iteration counts and `where` filters are covered by the bounded tier against an independent reference model.',
+      'Trusted: engine; the deep clone is a fresh disjoint tree (C07/C01); primitives\' own decode is the induction hypothesis. Derived-value computation '
+      '(`_compute_derived`) is not under contract.',
+      'contract-based deductive verification (pyvc loop contract + trace obligations) + bounded stand-in', 'DESIGN.md 5/C13')
+claim('C18', 'other',
+      'Construction-time binding of `Functor.__init__` is executed symbolically against a specification of Python\'s binding rule (positional i binds parameter i; '
+      'surplus positionals go to *args or raise TypeError; a keyword naming a bound parameter raises TypeError; the symbolic constructor receives exactly that '
+      'binding) for every signature shape with <= 3 positional parameters (+- *args), <= 4 positional and <= 2 keyword arguments, values symbolic: 300 obligations, '
+      'all discharged, but with a stated bound on the signature size, so they are a BOUNDED stand-in and not counted as proved. The property itself (same result '
+      'or same kind of error as calling the original callable) is checked by the bounded differential driver with the interpreter as oracle over 240 signature shapes.',
+      'No unbounded obligation is discharged for C18: "behaves like the original callable" has the Python interpreter itself as specification, which a contract '
+      'cannot state in closed form; the binding loops run over argument lists whose length must be concrete for the engine. Trusted: engine.',
+      'contract-based symbolic execution with a stated bound + bounded differential oracle (labelled bounded, not proof)', 'DESIGN.md 5/C18')
